@@ -288,6 +288,7 @@ def write_out(w, origs):
     aux = getattr(w, "_c19", {"files": [], "after_size": []})
     try:
         declared = w.size            # what a client puts into Content-Length, taken before the body is sent
+        known = [pl.size is not None for pl, _e, _t in w._parts]
         for act in aux["after_size"]:
             act()
         drive(w.write(rec), _NoStream)
@@ -295,12 +296,19 @@ def write_out(w, origs):
         for f in aux["files"]:
             f.close()
     wire = b"".join(rec.calls)
+    try:
+        return _locate_parts(w, origs, known, wire, declared)
+    except FramingError as e:
+        raise FramingError(f"{e}; declared size {declared}, {len(wire)} bytes written") from None
+
+
+def _locate_parts(w, origs, known, wire, declared):
     opening = b"--" + w._boundary + b"\r\n"
     closing = b"--" + w._boundary + b"--\r\n"
     delim = b"\r\n--" + w._boundary
     parts = []
     pos = 0
-    for (pl, enc, te), orig in zip(w._parts, origs):
+    for (pl, enc, te), orig, kn in zip(w._parts, origs, known):
         if not wire.startswith(opening, pos):
             raise FramingError(f"opening delimiter expected at offset {pos}")
         pos += len(opening)
@@ -321,7 +329,7 @@ def write_out(w, origs):
         if not wire.startswith(b"\r\n", pos):
             raise FramingError(f"CRLF expected after the content at offset {pos}")
         pos += 2
-        parts.append((bh, body, not (enc or te)))
+        parts.append((bh, body, not (enc or te) and kn))     # size known: enters MultipartWriter.size
     if wire[pos:] != closing:
         raise FramingError(f"closing delimiter expected at offset {pos}")
     return wire, parts, declared
@@ -651,9 +659,10 @@ def gen_spec(rng, quick=True, allow_files=True):
         cands = [i for i, p in enumerate(spec["parts"]) if not p.get("nested") and not p.get("cte") and not p.get("ce")
                  and not p.get("str")]
         rng.shuffle(cands)
+        cands = sorted(cands[:2])
         form = spec["kind"] in ("form-data", "formdata")
         first = None
-        for i in cands[:2]:
+        for i in cands:
             p = spec["parts"][i]
             n = len(p["content"]) // 2
             fs = {}
@@ -666,15 +675,17 @@ def gen_spec(rng, quick=True, allow_files=True):
                     first = i
             if rng.random() < 0.5:
                 fs["touch_size"] = rng.choice([-1, -1, 1, 5, -2])
-            if not form and rng.random() < 0.4:
-                fs["touch_append"] = rng.choice([-1, 3, -2])
+            if not form and len(cands) == 1 and rng.random() < 0.5:
+                fs["touch_append"] = rng.choice([-1, 3, -2])      # append() pinned the start; the application reads on
             p["file"] = fs
             if spec["kind"] == "formdata":
                 p["filename"] = p.get("filename") or "up%d.bin" % i
                 p.pop("ctype", None)
         # the content after `pre` must still be free of the delimiter at its start
-        for i in cands[:2]:
+        for i in cands:
             p = spec["parts"][i]
+            if not p.get("file"):
+                continue
             pre = p["file"].get("pre", 0) if p["file"].get("same_as") is None else spec["parts"][p["file"]["same_as"]]["file"].get("pre", 0)
             c = bytes.fromhex(p["content"])
             if (b"\r\n" + c[pre:]).find(b"\r\n--" + outer.encode()) >= 0:
@@ -965,7 +976,7 @@ def suite_roundtrip(ctx, exe, specs=None):
             ctx.case(("framing", json.dumps(spec, sort_keys=True)))
             continue
         ctype = w.headers["Content-Type"]
-        blen = len(spec["boundary"]) + 4
+        blen = max([len(spec["boundary"])] + [len(b) for _p, b in spec_leaves(spec)]) + 4     # legal for every (nested) part
         reps = 1 if len(wire) > 6000 else rng.choice([1, 2, 3])
         wl = model_writer_lines(spec["boundary"].encode("ascii"), wparts)
         wl.append([h + b for h, b, _ in wparts])
@@ -1137,7 +1148,18 @@ def sig_base64_short_read(case, params):
     return bool(d.get("per_chunk")) and any(c % 4 != 0 and c < 4 for c in counts[:-1])
 
 
+def _has_empty_nested(spec):
+    return any(p.get("nested") is not None and (not p["nested"]["parts"] or _has_empty_nested(p["nested"])) for p in spec["parts"])
+
+
+def sig_nested_empty(case, params):
+    """a MultipartWriter without parts appended as a part of another writer: the nested reader stops at `--b--` without
+    consuming the CRLF that ends the part, and the parent then reads an empty line where it expects its delimiter"""
+    return case.get("violation_kind") == "final" and "spec" in case and _has_empty_nested(case["spec"])
+
+
 SIGNATURES = {
+    "nested_empty": sig_nested_empty,
     "base64_short_read": sig_base64_short_read,
     "readline_lf_boundary": sig_readline_lf_boundary,
     "disposition_semicolons": sig_disposition_semicolons,
@@ -1313,7 +1335,7 @@ def suite_mutants(ctx, exe):
             continue
         ctype = w.headers["Content-Type"]
         boundary = spec["boundary"].encode("ascii")
-        blen = len(boundary) + 4
+        blen = max([len(spec["boundary"])] + [len(b) for _p, b in spec_leaves(spec)]) + 4
         for _ in range(3):
             k += 1
             body = mutate(rng, wire, boundary)
@@ -1381,6 +1403,26 @@ def limit_cases(rng, quick):
                 over = Lb > M
                 out.append((wire, B, {"client_max": M}, [["R"]], k, "ERR maxsize" if over else "END",
                             (len(head) + M + 3 * 8192 + k + 64) if over else None, f"part of {Lb} bytes read(), client_max_size {M}"))
+    # the limits a reader was built with also hold for the parts of a nested multipart part - in both directions
+    def nested_wire(inner_headers):
+        spec = {"kind": "mixed", "boundary": "LIM", "parts": [
+            {"content": b"first".hex(), "str": True},
+            {"nested": {"kind": "related", "boundary": "inner", "parts": [{"content": b"payload".hex(), "headers": inner_headers}]}},
+            {"content": b"last".hex(), "str": True}]}
+        w, origs = build_writer(spec)
+        return write_out(w, origs)[0]
+    for M, L in ((64, 50), (64, 60), (32768, 20000), (32768, 40000)):
+        wire = nested_wire([["X-Long", "a" * L]])
+        over = 8 + L + 2 > M
+        for k in (50, 9000):
+            out.append((wire, B, {"max_field": M}, [["R"], ["R"], ["R"]], k, "ERR linetoolong" if over else "END", None,
+                        f"nested part with a header line of {10 + L} bytes, max_field_size {M}"))
+    for H, nx in ((8, 4), (8, 12), (200, 150), (200, 220)):
+        wire = nested_wire([["X-%d" % i, "v"] for i in range(nx)])
+        over = nx + 2 > H
+        for k in (50, 9000):
+            out.append((wire, B, {"max_headers": H}, [["R"], ["R"], ["R"]], k, "ERR badhttp" if over else "END", None,
+                        f"nested part with {nx + 2} header lines, max_headers {H}"))
     return out
 
 
@@ -1395,7 +1437,9 @@ def suite_limits(ctx, exe):
                 "what": what, "k": k, "limits": limits, "sched": sched, "expect": expect, "fed_bound": fed_bound, "wire_len": len(wire)}
         bad = []
         if rec["final"].split(" (")[0] != expect:
-            bad.append(("limit", f"{what}: reader ended with {rec['final']}, expected {expect}", {}))
+            bad.append(("limit", f"{what}: reader ended with {rec['final']} ({rec.get('exc')}), expected {expect}", {}))
+        elif expect == "END" and what.startswith("nested") and [b"".join(p["chunks"]) for p in rec["parts"]] != [b"first", b"payload", b"last"]:
+            bad.append(("content", f"{what}: parts read back as {[b''.join(p['chunks'])[:20] for p in rec['parts']]}", {}))
         elif fed_bound is not None and fed > fed_bound:
             bad.append(("limit-late", f"{what}: the limit was enforced only after {fed} bytes had been taken from the transport "
                         f"(bound {fed_bound}: limit + one read-ahead window + one segment)", {"fed": fed}))
